@@ -2,7 +2,8 @@
  *   lib/sse_t1/mb_mgr_sse.c, lib/avx2_t1/mb_mgr_avx2.c, lib/avx512_t1/mb_mgr_avx512.c, lib/x86_64/mb_mgr_auto.c
  * and cpu_feature_adjust() of lib/x86_64/cpu_feature.c on an ARBITRARY CPU (cpu_feature_detect() returns an arbitrary but
  * fixed word) and an arbitrary prior manager.  The nine per-variant init functions and self_test() are recording stubs.
- * -DWHICH=1 sse, 2 avx2, 3 avx512, 4 auto */
+ * -DWHICH=1 sse, 2 avx2, 3 avx512, 4 auto; 5/6/7 (C16): the internal dispatchers init_mb_mgr_{sse,avx2,avx512}_internal(state, reset_mgrs)
+ * - the re-attach path calls them with reset_mgrs = 0 - hand exactly that argument to the variant they select, on any CPU. */
 #include <stdint.h>
 #include "intel-ipsec-mb.h"
 #undef assert
@@ -13,13 +14,14 @@ int nondet_int(void);
 #include "x86_64/error.c" /* real imb_get_errno/imb_set_errno */
 static uint64_t G_CPU;     /* what CPUID says on this (arbitrary) machine */
 static unsigned g_calls[10], g_total, g_selftest, g_selftest_after_variant;
+static int g_reset_arg[10];
 static int g_selftest_ret;
 #define cpu_feature_detect real_cpu_feature_detect
 #include "x86_64/cpu_feature.c"
 #undef cpu_feature_detect
 uint64_t cpu_feature_detect(void) { return G_CPU; }
 void mbcpuid(const unsigned leaf, const unsigned subleaf, struct cpuid_regs *out) { (void) leaf; (void) subleaf; (void) out; }
-#define V(id, name) void name(IMB_MGR *s, const int reset) { (void) reset; g_calls[id]++; g_total++; s->used_arch_type = id; }
+#define V(id, name) void name(IMB_MGR *s, const int reset) { g_reset_arg[id] = reset; g_calls[id]++; g_total++; s->used_arch_type = id; }
 V(1, init_mb_mgr_sse_t1_internal) V(2, init_mb_mgr_sse_t2_internal) V(3, init_mb_mgr_sse_t3_internal)
 V(4, init_mb_mgr_avx2_t1_internal) V(5, init_mb_mgr_avx2_t2_internal) V(6, init_mb_mgr_avx2_t3_internal) V(7, init_mb_mgr_avx2_t4_internal)
 V(8, init_mb_mgr_avx512_t1_internal) V(9, init_mb_mgr_avx512_t2_internal)
@@ -72,7 +74,27 @@ main(void)
         assert(F == expF);
         IMB_ARCH arch_out = (IMB_ARCH) 77;
         int arch = WHICH;
-#if WHICH == 1
+#if WHICH >= 5
+        {
+                const int r = nondet_int();
+                arch = WHICH - 4;
+                if (WHICH == 5) init_mb_mgr_sse_internal(&st, r);
+                if (WHICH == 6) init_mb_mgr_avx2_internal(&st, r);
+                if (WHICH == 7) init_mb_mgr_avx512_internal(&st, r);
+                const int w = expected_variant(F, arch);
+                if (g_total != 0) {
+                        assert(g_total == 1);
+                        for (int v = 1; v < 10; v++)
+                                if (g_calls[v]) assert(g_reset_arg[v] == r); /* reset_mgrs handed through unchanged: re-attach (0) never resets a lane */
+                        if (w != 0) assert(g_calls[w] == 1);
+                }
+                assert(g_selftest == 0);
+#ifdef WITNESS
+                assert(g_total == 0);
+#endif
+                return 0;
+        }
+#elif WHICH == 1
         init_mb_mgr_sse(&st);
 #elif WHICH == 2
         init_mb_mgr_avx2(&st);
